@@ -157,6 +157,24 @@ CHECKS["C13"] = dict(
     design_ref="DESIGN.md section 4, C13",
     note="Trusted: our substitution as the meaning of 'textual expansion'; AM; names the reference leaves undefined are not generated; shapes up to nesting depth 2.")
 
+CHECKS["C18"] = dict(
+    category="exploration",
+    technique="bounded-exhaustive single-site mutant enumeration (declaration/default and assignment matrices, all printable escapes in every literal context, structural misuse menu, corpus identifier swaps) x option sets, outcome classification",
+    text="Every cell of the (output type incl. odd widths and sizes) x (default / assigned / appended atom of every kind) matrices, every escape \\c for every printable c in match, case-insensitive match, assignment, default, "
+         "regex, regex-set and char-constant position, malformed \\x / binary literals, ~60 regex shapes, ~110 structural misuse programs (statements in the wrong place, empty and action-only bodies, duplicates, missing flags, "
+         "degenerate repeats, deep nesting) and identifier-for-identifier swaps in every corpus program are compiled under up to five option sets; the outcome must be code, a syntax error or a diagnosed error whose message renders - "
+         "never another exception or a timeout. Exploration rather than model checking: the space is a finite menu enumerated completely, but the property quantifies over all grammatical sources.",
+    design_ref="DESIGN.md section 4, C18",
+    note="Trusted: nothing beyond the classification of exceptions; single-site mutants from finite menus only.")
+CHECKS["C20"] = dict(
+    category="model_checking",
+    technique="exhaustive enumeration of compilation histories (<= 2 prior compilations from an 8-program polluter set) and bounded identity-hash layout deviations in fresh interpreters under 4 hash seeds; each recompilation bisimulated (no slack) against the first",
+    text="Per program, child interpreters with PYTHONHASHSEED 0..3 compile it fresh, again, after every sequence of <= 2 polluter compilations (accepted, rejected in each phase, other flags), and under controlled "
+         "identity-hash layouts (__hash__ of nmfu's identity-hashed classes replaced by explorer-chosen permutations of creation order, which fixes set/dict iteration order); every recompilation must give the same verdict "
+         "and a machine bisimilar without slack to the first (explicit-state product search); across hash seeds the verdict and the behaviour table on all strings <= 4 must be identical.",
+    design_ref="DESIGN.md section 4, C20",
+    note="Trusted: AM; histories accumulate inside one child; layouts and hash seeds are finite menus (stated); emitted C text is not compared (numbering legitimately varies).")
+
 NOT_YET = {
 }
 
